@@ -1154,7 +1154,22 @@ func (m *lm) opBalance() string {
 			m.addViol("C06", "panic", "CalculateBalance panicked: %v", err)
 			return "balance PANIC"
 		}
+		nv := len(m.viol)
 		m.judgeBalance(n, before, addr, name, got, err)
+		if len(m.viol) > nv && m.orphanEver {
+			// vertices were parked in this history: the node's own 2 s ticker may have admitted one between the snapshot the
+			// reference was computed from and the query. The answer must then match the ledger as it is now.
+			saved := append([]lmViolation(nil), m.viol[nv:]...)
+			m.viol = m.viol[:nv]
+			if fresh, e := m.w.Snapshot(m.w.Nodes[n]); e == nil {
+				m.judgeBalance(n, fresh, addr, name, got, err)
+				if len(m.viol) == nv {
+					m.label("c06:answer-matches-the-ledger-after-a-ticker-admission")
+				}
+			} else {
+				m.viol = append(m.viol, saved...)
+			}
+		}
 		if err != nil {
 			answers = append(answers, "err")
 		} else {
